@@ -362,6 +362,9 @@ func (w *world) doStep(st step) {
 			"leader": w.leaderOf(st.Up) == s}
 		pre := w.observe(s, st.Up)
 		e["pre"] = pre
+		// the limits as CONFIGURED in the upstream's object right now (the truth the answers are judged against; the server's own
+		// record of them is what is under test)
+		e["cfgLimit"], e["cfgBurst"] = u.Max, u.Burst
 		w.shardInfo(e, s, st.Up)
 		e["leaseok"] = w.leaseOK(s, st.Up)
 		before := w.allState(st.Up)
